@@ -38,6 +38,7 @@ D_H3B  == {1, 2, 3, BCAST}
 D_H3UB == {1, 2, 3, UNK, BCAST}
 D_All3 == {1, 2, 3, UNK, BCAST, MCAST}
 D_All2 == {1, 2, UNK, BCAST, MCAST}
+D_1UB  == {1, UNK, BCAST}
 Sh_a   == {"a"}
 Sh_ab  == {"a", "b"}
 Sh_al  == {"a", "l"}
@@ -49,5 +50,6 @@ G_31   == {31}
 G_6    == {6}
 G_6_11 == {6, 11}
 G_6_31 == {6, 31}
+G_3_6_31 == {3, 6, 31}
 G_all  == {6, 11, 31}
 ====
